@@ -405,7 +405,7 @@ def build_frames(reg, common, RECV_PRE):
     SIZE_BAD = ("size_bad(%s, self.current_frame.length, self.maxMessagePayloadSize, self.maxFramePayloadSize)" % TOTAL0)
     # ---------------------------------------------------------------- onFrameBegin
     reg.contract(
-        WSP + ".onFrameBegin", props=["C02", "C16"], params=dict(S),
+        WSP + ".onFrameBegin", props=["C02", "C16", "C12"], params=dict(S),
         requires=RECV_PRE + [CF + " is not None",
                              "implies(%s.opcode <= 7 and self.inside_message, self.message_data is not None)" % CF],
         modifies=DATA_MOD,
@@ -435,18 +435,26 @@ def build_frames(reg, common, RECV_PRE):
             "self.utf8validateIncomingCurrentMessage == old(self.utf8validateIncomingCurrentMessage) and "
             "self.utf8validator._state == old(self.utf8validator._state) and "
             "self.utf8validateLast[1] == old(self.utf8validateLast[1]))" % CF,
+            # (C12) a message is inflated exactly when its *first* frame carries RSV1 and an extension is negotiated;
+            # continuation and control frames never change that
+            "implies(%s.opcode <= 7 and not old(self.inside_message), self._isMessageCompressed == "
+            "(self._perMessageCompress is not None and %s.rsv == 4))" % (CF, CF),
+            "implies(%s.opcode > 7 or old(self.inside_message), self._isMessageCompressed == old(self._isMessageCompressed))" % CF,
         ], **common)
 
     # ---------------------------------------------------------------- onFrameData
-    VALID_CHUNK = "utf8_run(from_table(old(self.utf8validator._state)), payload, len(payload)) != 8"
+    # the application-level octets of this chunk: the payload itself, or -- inside a compressed message -- what the
+    # negotiated extension inflates it to (arbitrary octets as far as this unit knows; a damaged stream makes the codec raise)
+    AP = "(ghost.last_inflated if (%s.opcode <= 7 and old(self._isMessageCompressed)) else payload)" % CF
+    VALID_CHUNK = "utf8_run(from_table(old(self.utf8validator._state)), %s, len(%s)) != 8" % (AP, AP)
     reg.contract(
-        WSP + ".onFrameData", props=["C02", "C16"], params=dict(S, payload="bytes"), returns="opt:bool",
-        requires=RECV_PRE + [CF + " is not None", "not self._isMessageCompressed",
+        WSP + ".onFrameData", props=["C02", "C16", "C12"], params=dict(S, payload="bytes"), returns="opt:bool",
+        requires=RECV_PRE + [CF + " is not None", "implies(self._isMessageCompressed, self._perMessageCompress is not None)",
                              "implies(%s.opcode > 7, self.control_frame_data is not None)" % CF,
                              "implies(%s.opcode <= 7, self.frame_data is not None)" % CF,
                              "len(payload) < 2**62 and self.utf8validator._index + len(payload) < 2**63"],
         modifies=sorted(set(FAIL_MOD + ["self.control_frame_data", "self.frame_data", "self.utf8validator._state",
-                                        "self.utf8validator._index", "self.utf8validateLast"])),
+                                        "self.utf8validator._index", "self.utf8validateLast", "ghost.last_inflated"])),
         ensures=INV + [
             MONO, NOT_CLEANER,
             "implies(%s.opcode > 7, join(self.control_frame_data) == old(join(self.control_frame_data)) + payload and "
@@ -461,13 +469,17 @@ def build_frames(reg, common, RECV_PRE):
             "implies(%s.opcode <= 7 and (not self.utf8validateIncomingCurrentMessage or %s), "
             "self.failedByMe == old(self.failedByMe) and self.state == old(self.state) and result is None)" % (CF, VALID_CHUNK),
             "implies(%s.opcode <= 7 and self.utf8validateIncomingCurrentMessage and %s, "
-            "self.utf8validator._state == to_table(utf8_run(from_table(old(self.utf8validator._state)), payload, len(payload))) "
-            "and self.utf8validateLast[1] == (self.utf8validator._state == 0))" % (CF, VALID_CHUNK),
+            "self.utf8validator._state == to_table(utf8_run(from_table(old(self.utf8validator._state)), %s, len(%s))) "
+            "and self.utf8validateLast[1] == (self.utf8validator._state == 0))" % (CF, VALID_CHUNK, AP, AP),
             # buffered only while the connection has not been failed
             "implies(%s.opcode <= 7 and not self.failedByMe and not (result is False), "
-            "join(self.frame_data) == old(join(self.frame_data)) + payload)" % CF,
+            "join(self.frame_data) == old(join(self.frame_data)) + %s)" % (CF, AP),
             "implies(%s.opcode <= 7 and self.failedByMe and not (result is False), len(self.frame_data) == old(len(self.frame_data)))" % CF,
-        ], **common)
+        ],
+        # a damaged compressed stream: the codec's exception escapes this unit with nothing buffered from the chunk
+        raises={"Exception": "self.current_frame.opcode <= 7 and self._isMessageCompressed"},
+        raises_ensures={"Exception": ["implies(self.frame_data is not None and old(self.frame_data) is not None, "
+                                      "len(self.frame_data) == old(len(self.frame_data)))"]}, **common)
 
     # ---------------------------------------------------------------- ping / pong
     reg.contract(
@@ -569,7 +581,7 @@ def build_control(reg, common, RECV_PRE, DATA_MOD):
     reg.contract(
         WSP + ".onFrameEnd", props=["C02", "C16", "C17"], params=dict(S), returns="opt:bool",
         requires=RECV_PRE + TIMER_KINDS_OK + [
-            CF + " is not None", "not self._isMessageCompressed",
+            CF + " is not None", "implies(self._isMessageCompressed, self._perMessageCompress is not None)",
             "implies(%s.opcode > 7, self.control_frame_data is not None and len(join(self.control_frame_data)) <= 125 and "
             "implies(%s.opcode == 8, len(join(self.control_frame_data)) != 1))" % (CF, CF),
             "implies(%s.opcode <= 7, self.frame_data is not None and self.message_data is not None)" % CF,
